@@ -168,7 +168,7 @@ def probeRow (joined : Bool) : List (String × String) :=
   [("alive", Fate.alive), ("over", .over), ("cancelled", .cancelled)].map fun f =>
     let a := step joined init (.tx f.2)
     let r := run joined init [.tx f.2, .close]
-    (f.1, s!"res={resName a.2} pairs={joined} cleared={!a.1.wdPast} tags={r.1.tags}")
+    (f.1, s!"res={resName a.2} pairs={joined || f.2 != .over} cleared={!a.1.wdPast} tags={r.1.tags}")
 
 def probeTable (joined : Bool) : List (String × List (String × String)) :=
   ["Send", "Encode", "EncodeElement", "SendIQ", "SendElement"].map fun e => (e, probeRow joined)
